@@ -14,9 +14,19 @@ type InstCase struct {
 	Mode int      `json:"mode"`
 	St   sem.Stmt `json:"st"`
 	Cls  string   `json:"cls,omitempty"`
+	// Ctx "widen": the statement follows a 16-bit branch that does not fit rel8, so gosk assembles
+	// the program twice (branch widening) - state left by the first round must not leak into the second
+	Ctx string `json:"ctx,omitempty"`
 }
 
-func (c InstCase) Source() string { return sem.Header(c.Mode) + c.St.Render() + "\n" }
+const widenPrefix = "\tJNE zzwide\n\tRESB 200\nzzwide:\n"
+
+func (c InstCase) Source() string {
+	if c.Ctx == "widen" {
+		return sem.Header(c.Mode) + widenPrefix + "\t" + c.St.Render() + "\n"
+	}
+	return sem.Header(c.Mode) + c.St.Render() + "\n"
+}
 
 // prefix mnemonics written as a statement of their own: the one byte the
 // manual assigns.
@@ -48,7 +58,8 @@ func compareNoOperand(mn string, mode int, out []byte) (m *sem.Mismatch, noref b
 	if want == got {
 		return nil, false
 	}
-	if alt, ok := sizeless[want]; ok && got == alt && mode == 32 {
+	// only the size-less spelling itself (PUSHA, not PUSHAW) may follow the mode default
+	if alt, ok := sizeless[mn]; ok && got == alt && mode == 32 {
 		return nil, false
 	}
 	return &sem.Mismatch{Kind: "op", Detail: fmt.Sprintf("wrote %s, bytes % x decode as %s in %d-bit mode", mn, out, inst.Op, mode)}, false
@@ -61,13 +72,24 @@ func checkInst(pid string, c InstCase) Verdict {
 	mode := sem.ModeOf(c.Mode)
 	r := asm.Assemble(c.Source())
 	base := asm.Baseline(sem.Header(c.Mode))
-	v := Verdict{Class: c.Cls, Key: fmt.Sprintf("%d|%s", c.Mode, c.St.Render())}
+	v := Verdict{Class: c.Cls, Key: fmt.Sprintf("%d|%s|%s", c.Mode, c.Ctx, c.St.Render())}
 	if asm.Diagnosed(r, base) {
 		v.Skip = "diagnosed"
 		if r.Panic != "" {
 			v.Skip = "panic(see C13)"
 		}
 		return v
+	}
+	if c.Ctx == "widen" {
+		// strip the bytes of the prefix (assembled alone, cached)
+		pre := asm.Baseline(sem.Header(c.Mode) + widenPrefix)
+		if len(pre.Out) == 0 || len(r.Out) < len(pre.Out) || string(r.Out[:len(pre.Out)]) != string(pre.Out) {
+			v.Fail = fmt.Sprintf("%q after a widened branch: the bytes of the branch and its reservation changed (% x ...)", c.St.Render(), head(r.Out, 8))
+			v.Sig = pid + "|ctx-prefix"
+			return v
+		}
+		r.Out = r.Out[len(pre.Out):]
+		st.Classes["ctx:widen"]++
 	}
 	var m *sem.Mismatch
 	if len(c.St.Ops) == 0 && c.St.Mn != "RET" {
@@ -114,7 +136,11 @@ var propC01 = &Prop[InstCase]{
 		}
 		_ = fs
 		mode := rapid.SampledFrom([]int{0, 16, 32}).Draw(t, "mode")
-		return InstCase{Mode: mode, St: drawForm(t, f), Cls: f.Class}
+		ic := InstCase{Mode: mode, St: drawForm(t, f), Cls: f.Class}
+		if rapid.IntRange(0, 5).Draw(t, "ctx") == 0 {
+			ic.Ctx = "widen"
+		}
+		return ic
 	},
 	Check: checkC01,
 	Enum: func(tier string, yield func(InstCase)) bool {
